@@ -525,7 +525,7 @@ func planFor(prop, tier string) (*plan, error) {
 			ps = append(ps, flowProg(exprConc(f), "PF:chain2"))
 		}
 		for i, par := range pg.Pars(2, false) {
-			if len(par.Items) == 2 && i%2 == 1 && !th {
+			if !th && ((len(par.Items) == 2 && i%4 != 0) || (len(par.Items) == 1 && i%2 == 1)) {
 				continue
 			}
 			for _, coe := range []string{"", "true"} {
@@ -578,7 +578,7 @@ func planFor(prop, tier string) (*plan, error) {
 			pre := mk()
 			pre.Cancel = "pre"
 			out = append(out, pre)
-			if !defaultConc && (th || jobCount(p, &pre) <= 3) {
+			if !defaultConc && (th || jobCount(p, &pre) <= 2) {
 				thr := mk()
 				thr.Cancel = "thread"
 				out = append(out, thr)
@@ -709,9 +709,41 @@ func planFor(prop, tier string) (*plan, error) {
 				ps = append(ps, parProg(q, "PAR"))
 			}
 		}
+		for _, n := range []string{"chain2", "fork"} {
+			for _, f := range pg.WithPredFallback(pg.Shape(n), []string{"none", "shared"}, 1) {
+				if hasFallback(f) {
+					continue
+				}
+				ps = append(ps, flowProg(exprConc(f), "PF:"+n))
+			}
+		}
+		{
+			f := pg.Shape("fork")
+			f.Conc = ""
+			ps = append(ps, flowProg(f, "default-conc:fork"))
+		}
 		pl.progs = numIDs(ps)
 		pl.scen = func(p *pg.Program) []genrt.Scenario {
 			var out []genrt.Scenario
+			if strings.HasPrefix(p.Fam, "PF:") {
+				// a predicate that panics fails the flow like a failing task
+				for _, pid := range preds(p) {
+					for _, n := range ns {
+						sc := withDec(base(p, n), []string{pid}, probe.Panic)
+						sc.PanicKind = "error"
+						out = append(out, sc)
+					}
+					out = append(out, withDec(base(p, 2), []string{pid}, probe.False))
+				}
+			}
+			if strings.HasPrefix(p.Fam, "default-conc") {
+				for _, sub := range subsetsOf(failable(p), 2) {
+					sc := withDec(base(p, 0), sub, probe.Fail)
+					sc.GOMAXP = 1
+					out = append(out, sc)
+				}
+				return out
+			}
 			ids := failable(p)
 			max := 3
 			if len(ids) > 4 {
@@ -981,6 +1013,23 @@ func planFor(prop, tier string) (*plan, error) {
 		}
 		for _, f := range pg.WithPredFallback(pg.Shape("chain2"), []string{"nonectx"}, 1) {
 			ps = append(ps, flowProg(exprConc(f), "PF:ctx"))
+		}
+		// every task listing order for flows with one predicate or fallback
+		for _, n := range []string{"chain2", "join"} {
+			if n == "join" && !th {
+				continue
+			}
+			for _, f := range pg.WithPredFallback(pg.Shape(n), []string{"none", "shared", "upstream"}, 1) {
+				g := exprConc(f)
+				for oi, o := range pg.TaskOrders(g) {
+					if oi == 0 {
+						continue // the default order is already in the family
+					}
+					h := g.Clone()
+					h.Order = o
+					ps = append(ps, flowProg(h, "PF-LT:"+n))
+				}
+			}
 		}
 		pl.progs = numIDs(ps)
 		pl.scen = func(p *pg.Program) []genrt.Scenario {
